@@ -4,7 +4,7 @@
    Python statement by statement; Python slices are [Lib.Py.slice], so
    out-of-range arguments behave (and misbehave) as they do in CPython. *)
 From Coq Require Import ZArith List Bool.
-From PTK Require Import Lib.Sx Lib.Py Model.Document.
+From PTK Require Import Lib.Sx Lib.Py Lib.PyLines Model.Document.
 Import ListNotations.
 Open Scope Z_scope.
 
@@ -111,6 +111,18 @@ Definition join_next_line (b : buf) (sep : str) : res :=
     bind (delete b1 1) (fun b2 _ =>
       Ok (set_text b2 (text_before_cursor (bdoc b2) ++ sep
                        ++ lstrip_by (Z.eqb SP) (text_after_cursor (bdoc b2)))) []).
+
+(* join_selected_lines: [orig] is selection_state.original_cursor_position.
+   The new cursor can be -1 (selection starting at 0 on one line); the
+   Document constructor accepts it and _set_cursor_position clamps it. *)
+Definition join_selected_lines (b : buf) (orig : Z) (sep : str) : res :=
+  let from_ := Z.min (bcur b) orig in
+  let to := Z.max (bcur b) orig in
+  let before := slice_to (btext b) from_ in
+  let ls := map (fun l => lstrip_by (Z.eqb SP) l ++ sep) (splitlines (slice2 (btext b) from_ to)) in
+  let after := slice_from (btext b) to in
+  set_document b (before ++ concat ls ++ after)
+               (len (before ++ concat (removelast ls)) - 1).
 
 Definition swap_characters_before_cursor (b : buf) : res :=
   let pos := bcur b in
@@ -235,7 +247,8 @@ Inductive op :=
 | OBackwardDeleteChar (arg : Z)
 | ODeleteChar (arg : Z)
 | OSelfInsert (data : str) (arg : Z)
-| OTranspose.
+| OTranspose
+| OJoinSelected (orig : Z) (sep : str).
 
 Definition step (b : buf) (o : op) : res :=
   match o with
@@ -259,6 +272,7 @@ Definition step (b : buf) (o : op) : res :=
   | ODeleteChar a => delete_char b a
   | OSelfInsert d a => self_insert b d a
   | OTranspose => transpose_chars b
+  | OJoinSelected orig sep => join_selected_lines b orig sep
   end.
 
 (* ---------------------------------------------------------------------- *)
@@ -286,6 +300,7 @@ Definition dec_op (s : sx) : option op :=
   | L [A 18; A n] => Some (ODeleteChar n)
   | L [A 19; d; A n] => match as_str d with Some d' => Some (OSelfInsert d' n) | None => None end
   | L [A 20] => Some OTranspose
+  | L [A 21; A o; d] => match as_str d with Some d' => Some (OJoinSelected o d') | None => None end
   | _ => None
   end.
 
